@@ -1,7 +1,11 @@
 """C11 - k-d tree: construction terminates, leaves partition the points, kNN and radius queries are exact."""
+import gc
 import math
+import os
 import random
 import numbers
+import sys
+import types
 import numpy as np
 from hypothesis import strategies as st
 from vlib.runner import SubCheck
@@ -26,8 +30,23 @@ RULE = ("Generated point arrays N in [0,80], d in [1,4] of six kinds (uniform fl
         "dropping the previous tree (new array, or the caller's array overwritten in place) or next to it (then the first "
         "tree is queried again); copy / deepcopy / pickle clones of the tree answer the same queries; k up to 2**64, "
         "r up to 1e300, r within 1e-5..1e-9 relative of a point distance, integer-typed query positions. "
+        "Termination is decided by a deterministic STEP BUDGET, in every sub-check, for the constructor and for every query / "
+        "query_radius call: the library's own Python code runs under a step counter (sys.monitoring; a step = a call made - to "
+        "Python or compiled code - or a jump, i.e. a loop iteration, also of a one-line loop or a comprehension, in "
+        "mouette/spatial/kdtree.py, or a loop iteration in any other file of the mouette package; numpy and harness code are not "
+        "counted) and the call is aborted with the violation 'build:step-budget' / 'knn:step-budget' / 'radius:step-budget' once "
+        "it has executed more than 3500*W steps (build), 2000*W (kNN query), 1500*W (radius query), where W = N + "
+        "2*max(0, N - leaf size) + 3 bounds the number of points plus tree nodes. Measured maxima on the unchanged library over "
+        "the quick tier at seeds 1-4 and a 0.1-scaled thorough run (all strategies with their seeded random choices, d<=4, "
+        "leaf size >=1, N up to 65537): 13.5, 8.0 and 5.7 steps per unit of W - the budgets are at least 250 times that; a call "
+        "that uses more than 1/200 of its budget is labelled '<call>-steps>budget/200' (expected: never), more than 1/1000 "
+        "'<call>-steps>budget/1000'. Labelled classes where an oversized node cannot be separated along its split axis: "
+        "'axis-constant-over-cloud>leaf' (some coordinate is the same for all N > leaf points), 'point-repeated>leaf-times' "
+        "(one position occurs more often than the leaf size), and 'degenerate-node&strategy=<s>' for either of them under each "
+        "strategy (lattice / collinear / identical / maxheavy kinds, d=1 and leaf size 1 included). "
         "Sub-checks: 'queries', 'build' "
-        "(termination certificate + leaf partition only; a diverging build is discarded in 'queries'), 'large' (seed-generated "
+        "(step budget + termination certificate + leaf partition only; a build with a divergence certificate is discarded in "
+        "'queries', a build over its step budget is reported where it occurs), 'large' (seed-generated "
         "clouds of 100-400, 255/256/257/511/512/513 or 1000-5000 points, leaf sizes up to 100, same oracles), 'huge' (65535 / "
         "65536 / 65537 points). non-trivial = N > leaf size (the tree has an inner node) and, "
         "for queries, some query has k>1 or r>0; distinct = distinct realised (points, dtype, parameters, queries).")
@@ -38,9 +57,25 @@ ASSUMPTIONS = ["coordinates are finite, of magnitude <= 1e14 (float16 arrays <= 
                "values) and the query point exactly as given in double precision",
                "point arrays have shape (N,d) with d>=1 (N=0 is given as an empty (0,d) array)",
                "max_leaf_size >= 1, k >= 1, 0 <= r < inf",
-               "termination: a non-terminating build is reported only with a divergence certificate (a no-progress split "
-               "of the same index set on the same axis repeats under a pivot rule that is deterministic for that set); "
-               "exhausting 200*(N+10) splits without certificate is counted as discarded 'inconclusive-budget'"]
+               "termination: a non-terminating call is reported (a) with a divergence certificate (a no-progress split "
+               "of the same index set on the same axis repeats under a pivot rule that is deterministic for that set; "
+               "only when the step counter is unavailable, exhausting 200*(N+10) splits without certificate is counted "
+               "as discarded 'inconclusive-budget'), or (b) when "
+               "it exceeds its step budget. The step budget is a count of executed library steps, NOT a time limit: it does "
+               "not depend on the machine or its load, numpy.random is seeded from the case, so a replay counts the same "
+               "steps and gives the same verdict. It is sound because a correct build performs at most max(0, N-leaf) "
+               "successful splits and, per node, at most d attempts with O(1) expected pivot draws, each a constant number of "
+               "vectorised calls, and a correct query visits each of the <= 2*max(0, N-leaf)+1 nodes and each point at most "
+               "once with the O(log N) heap work done in compiled code: O(W) steps, W = N + 2*max(0, N-leaf) + 3 (the present "
+               "code cannot need more than about 60 per unit even if every node retried all d <= 4 axes; the maxima measured "
+               "are 13.5 / 8.0 / 5.7). The budgets of 3500 / 2000 / 1500 steps per unit leave a factor >= 250 over everything "
+               "measured and still admit any re-implementation that spends up to a thousand Python-level calls or loop "
+               "iterations per point (e.g. pure-Python loops over the points on each of O(log N) levels); an implementation "
+               "needing more than that is assumed not to exist for N <= 65537, d <= 4",
+               "loops that spin inside compiled code (numpy) or in Python code outside the mouette package execute no counted "
+               "step: they end in the runner's watchdog and are only counted as inconclusive; if sys.monitoring is "
+               "unavailable (Python < 3.12, tool id 4 taken) the calls run uncounted and are labelled "
+               "'step-counter-unavailable'"]
 
 KINDS = ["uniform", "lattice", "cluster", "collinear", "identical", "maxheavy"]
 KIND_WEIGHTS = ["uniform"] * 3 + ["lattice"] * 3 + ["cluster"] * 2 + ["collinear"] * 2 + ["identical"] + ["maxheavy"] * 2
@@ -438,6 +473,136 @@ def watched_class(KDTree):
     return W
 
 
+# ------------------------------------------------------------------------------------------ deterministic step budget
+class StepBudget(BaseException):
+    """raised by the step counter from inside library code once a call has executed more steps than its budget
+    (BaseException: the library cannot swallow it with `except Exception`; it is raised again at every further step)"""
+
+
+# Steps allowed per unit of work W(N, leaf) = N + 2*max(0, N - leaf) + 3: every point is handled once, and a tree over N points
+# with leaves of at most `leaf` points has at most max(0, N - leaf) inner nodes, hence at most 2*max(0, N - leaf) + 1 nodes.
+# Measured on the unchanged library over the quick tier at VERIF_SEED=1..4 and a 0.1-scaled thorough run (86,000 builds, 325,000
+# queries of each sort, every strategy with its seeded random choices, d <= 4, leaf size >= 1, N up to 65537): a build never
+# needed more than 13.5 steps per unit (N=11, d=3, leaf size 1), a kNN query 8.0 (N=513, leaf size 1, k=256), a radius query 5.7
+# (N=1099, d=4, leaf size 1). The budgets are >= 250x that.
+STEPS_PER_UNIT = {"build": 3500, "knn": 2000, "radius": 1500}
+STATED_MARGIN = 200
+STEP_BUDGET_ON = True           # False: calls run uncounted (termination then rests on the split certificate + watchdog)
+
+
+def work_units(N, leaf):
+    return N + 2 * max(0, N - leaf) + 3
+
+
+def step_budget(what, N, leaf):
+    return STEPS_PER_UNIT[what] * work_units(N, leaf)
+
+
+class StepCounter:
+    """Counts *steps* of the library's own Python code with sys.monitoring (Python >= 3.12): a line event, a jump event (every
+    loop iteration ends in one, also in a loop written on one line) or a function start in mouette/spatial/kdtree.py, and a
+    jump event in any other file of the mouette package. Only those code objects are instrumented, so that harness, numpy and
+    Hypothesis code run at full speed. The count is a function of the executed library code path alone (numpy.random is
+    seeded from the case): no clock is involved and a replay counts the same steps."""
+    TOOL = 4                    # a free, non-reserved tool id (Hypothesis' explain phase, not used here, takes 3)
+
+    def __init__(self):
+        self.cell = [0, math.inf]          # [steps of the current window, budget of the current window]
+        self.state = None                  # None = not installed yet, True = counting, str = why it is unavailable
+        self.n_codes = 0
+
+    def _callbacks(self):
+        cell = self.cell
+
+        def on_jump(code, offset, destination):
+            cell[0] += 1
+            if cell[0] > cell[1]:
+                raise StepBudget()
+
+        def on_call(code, offset, callee, arg0):
+            cell[0] += 1
+            if cell[0] > cell[1]:
+                raise StepBudget()
+        return on_jump, on_call
+
+    @staticmethod
+    def library_codes(root):
+        """every code object defined in a file under `root` that some live function uses (incl. nested ones)"""
+        seen, out = set(), []
+
+        def add(c):
+            if c in seen or not c.co_filename.startswith(root):
+                return
+            seen.add(c)
+            out.append(c)
+            for k in c.co_consts:
+                if isinstance(k, types.CodeType):
+                    add(k)
+        for o in gc.get_objects():
+            if isinstance(o, types.FunctionType):
+                add(o.__code__)
+        return out
+
+    def instrument(self, code, full):
+        E = sys.monitoring.events
+        sys.monitoring.set_local_events(self.TOOL, code, (E.JUMP | E.CALL) if full else E.JUMP)
+
+    def install(self):
+        if self.state is not None:
+            return self.state is True
+        mon = getattr(sys, "monitoring", None)
+        if mon is None:
+            self.state = "sys.monitoring needs Python >= 3.12"
+            return False
+        try:
+            import mouette
+            import mouette.spatial.kdtree as kd
+            root = os.path.dirname(os.path.abspath(mouette.__file__)) + os.sep
+            kdfile = os.path.abspath(kd.__file__)
+            mon.use_tool_id(self.TOOL, "c11-step-counter")
+            on_jump, on_call = self._callbacks()
+            mon.register_callback(self.TOOL, mon.events.JUMP, on_jump)
+            mon.register_callback(self.TOOL, mon.events.CALL, on_call)
+            for c in self.library_codes(root):
+                self.instrument(c, os.path.abspath(c.co_filename) == kdfile)
+                self.n_codes += 1
+            self.state = True
+        except Exception as e:              # tool id taken, ...: the check then rests on the split certificate + watchdog
+            self.state = f"{type(e).__name__}: {e}"
+        return self.state is True
+
+
+STEPS = StepCounter()
+
+
+def budgeted_call(ctx, sig, N, leaf, what, f, *a):
+    """ctx.call(sig, f, *a) under the step budget of `sig`; returns (ok, value). Exceeding the budget is the violation
+    '<sig>:step-budget' - a count of executed library steps, not a time limit."""
+    if not STEP_BUDGET_ON or not STEPS.install():
+        ctx.label("step-counter-unavailable")
+        return ctx.call(sig, f, *a)
+    cell = STEPS.cell
+    budget = step_budget(sig, N, leaf)
+    cell[0], cell[1] = 0, budget
+    try:
+        ok, val = ctx.call(sig, f, *a)
+    except StepBudget:
+        cell[1] = math.inf
+        ctx.fail(sig + ":step-budget", f"{what} had not finished after {cell[0]} steps of library code (calls made and loop iterations "
+                 f"in mouette/spatial/kdtree.py + loop iterations elsewhere in mouette); the budget for N={N}, leaf size {leaf} is "
+                 f"{STEPS_PER_UNIT[sig]}*(N+2*max(0,N-leaf)+3) = {budget}, more than {STATED_MARGIN}x what the unchanged library "
+                 f"ever needed")
+        return False, None
+    finally:
+        cell[1] = math.inf
+    used = cell[0]
+    if used * STATED_MARGIN > budget:
+        ctx.label(sig + "-steps>budget/%d" % STATED_MARGIN)          # evidence against the stated margin: expected never
+    elif used * 1000 > budget:
+        ctx.label(sig + "-steps>budget/1000")
+    return ok, val
+
+
 # ------------------------------------------------------------------------------------------ brute force
 def is_dyadic4(x):
     x = float(x)
@@ -490,6 +655,29 @@ def self_test():
     for _ in range(5):
         m.observe(idx, 0, (1.0, idx, idx[:0]))      # random rule, points differ: never a certificate
     assert as_index_list([np.int64(1), 2], 3)[0] == [1, 2] and as_index_list([3], 3)[0] is None
+    # the step counter sees every iteration of a loop, also of one written on a single line, and aborts a call over budget
+    if STEPS.install():
+        import mouette.spatial.kdtree as kd
+        g = {}
+        exec(compile("def spin(n):\n    i = 0\n    while i < n: i += 1\n    return i\n"
+                     "def comp(n):\n    return [i for i in range(n) if i >= 0]\n", os.path.abspath(kd.__file__), "exec"), g)
+        for f in (g["spin"], g["comp"]):
+            STEPS.instrument(f.__code__, True)
+            STEPS.cell[0], STEPS.cell[1] = 0, math.inf
+            f(500)
+            assert 499 <= STEPS.cell[0] <= 2000, f"step counter counted {STEPS.cell[0]} steps for 500 loop iterations"
+            STEPS.cell[0], STEPS.cell[1] = 0, 100
+            try:
+                f(500)
+                raise AssertionError("no StepBudget for a loop over its budget")
+            except StepBudget:
+                assert STEPS.cell[0] == 101
+            finally:
+                STEPS.cell[1] = math.inf
+        from mouette.spatial import KDTree
+        STEPS.cell[0] = 0
+        KDTree(np.arange(40.0).reshape((20, 2)), 2, "balanced").query(np.zeros(2), 3)
+        assert 50 < STEPS.cell[0] < step_budget("build", 20, 2) // STATED_MARGIN, f"{STEPS.cell[0]} steps for a 20-point tree"
     # the generators realise coordinates exactly as the chosen dtype stores them
     c = realise_large(5, 120, 2, "uniform", 10, "fast", 2)
     A = np.array(c["points"], dtype=NP_DTYPES[c["dtype"]])
@@ -639,13 +827,28 @@ def one_round(case, ctx, mode, pts, rd, state, rmode):
         if N > leaf and distinct_pts == 1:
             ctx.label("identical>leaf")
         ctx.label("dyadic-points" if pts_dyadic else "float-points")
+        # classes in which some oversized node cannot be separated along its split axis (the pivot rule sees equal values)
+        degenerate = []
+        if N > leaf and any(all(p[a] == pts[0][a] for p in pts) for a in range(d)):
+            degenerate.append("axis-constant-over-cloud>leaf")
+        mult = {}
+        for p in pts:
+            t = tuple(float(x) for x in p)
+            mult[t] = mult.get(t, 0) + 1
+        if N > 0 and max(mult.values()) > leaf:
+            degenerate.append("point-repeated>leaf-times")
+        ctx.label(*degenerate)
+        if degenerate:
+            ctx.label("degenerate-node&strategy=" + strategy.lower())
 
     # ---- build under the termination monitor
     W = watched_class(KDTree)
-    mon = SplitMonitor(P0, strategy.lower(), 200 * (N + 10))
+    # the split budget only matters without the step counter: with it, the step budget (>= 250x the need) is the authority
+    mon = SplitMonitor(P0, strategy.lower(), math.inf if (STEP_BUDGET_ON and STEPS.install()) else 200 * (N + 10))
     W._mon = mon
     try:
-        ok, tree = ctx.call("build", W, P, leaf, strategy)
+        ok, tree = budgeted_call(ctx, "build", N, leaf, f"KDTree(N={N}, d={d}, max_leaf_size={leaf}, strategy={strategy!r}, "
+                                 f"kind={case['kind']})", W, P, leaf, strategy)
     except Divergence as e:
         if mode == "queries":
             # reported by sub-check 'build'; without a tree there is nothing to query
@@ -807,7 +1010,7 @@ def run_queries(case, ctx, R, state, tag):
 
         # kNN
         for rep in range(reps):
-            ok, res = ctx.call("knn", tree.query, qv, kv)
+            ok, res = budgeted_call(ctx, "knn", N, leaf, f"{where}: query(k={k})", tree.query, qv, kv)
             if not ok:
                 break
             knn_oracle(ctx, res, D_exact if q_exact else D_float, k, N, q_exact, tol, where + (" (repeated call)" if rep else ""))
@@ -817,7 +1020,7 @@ def run_queries(case, ctx, R, state, tag):
 
         # radius
         for rep in range(reps):
-            ok, res = ctx.call("radius", tree.query_radius, qv, rv)
+            ok, res = budgeted_call(ctx, "radius", N, leaf, f"{where}: query_radius(r={r!r})", tree.query_radius, qv, rv)
             if not ok:
                 break
             radius_oracle(ctx, res, D_exact if r_exact else D_float, r, N, r_exact, tol, where + (" (repeated call)" if rep else ""))
